@@ -27,10 +27,12 @@ ASSUMPTIONS = ['frames in streams are well-formed by construction and the '
 
 def shards(tier, seed):
     n = 16
-    return [{'name': 's%d' % i, 'i': i,
+    out = [{'name': 's%d' % i, 'i': i,
              'streams': 130 if tier == 'quick' else 2600,
              'mut_frames': 25 if tier == 'quick' else 400,
              'values': 6 if tier == 'quick' else 20} for i in range(n)]
+    return common.with_configs(out, [common.LOG_DEBUG, common.W_ERROR],
+                               take=2)
 
 
 def _tails(rnd, frame):
@@ -181,6 +183,46 @@ def _run_stream(case, rec):
                           'bytes left' % (len(frames), len(got), len(buf)),
                           case)
             return
+    # the same loop over ONE mutable receive buffer consumed in place
+    # (del buf[:consumed]) - how a sans-io client really holds its data
+    # (only for streams whose frames the library demonstrably accepts from a
+    # bytearray; the documented input type is bytes and frames carrying a
+    # non-empty field table are refused as bytearray)
+    def _norm(x):
+        return (x[0], tuple(str(y).replace('"$ba"', '"$b"') for y in x[1]))
+    pre = [common.lib_unmarshal(bytearray(f)) for f in frames]
+    usable = all(p.ok and _norm((p.value[1], _summ(p.value[2]))) == _norm(a)
+                 for p, a in zip(pre, alone))
+    buf = bytearray(b''.join(frames)) if usable else bytearray()
+    if not usable:
+        rec.count('streams_not_decodable_from_bytearray')
+    got = []
+    while buf and len(got) < len(frames) + 2:
+        rec.ev()
+        u = common.lib_unmarshal(buf)
+        if not u.ok:
+            rec.violation('inplace-buffer-decode-stops:' +
+                          (u.exc_type or 'budget'),
+                          'stream in one bytearray consumed in place: decode '
+                          'of frame %d %s' % (len(got), u.describe()), case)
+            return
+        c, ch, g = u.value
+        if not isinstance(c, int) or c <= 0 or c > len(buf):
+            rec.violation('stream-consumed-out-of-range',
+                          'consumed %r with %d bytes buffered' % (c, len(buf)),
+                          case)
+            return
+        got.append((ch, _summ(g)))
+        del buf[:c]
+    if usable and ([_norm(g) for g in got] != [_norm(a) for a in alone]
+                   or buf):
+        rec.violation('inplace-buffer-sequence-differs',
+                      'stream of %d frames held in one bytearray and '
+                      'consumed in place decoded to %d frames, %d bytes left'
+                      % (len(frames), len(got), len(buf)), case)
+        return
+    if usable:
+        rec.count('inplace_buffer_streams_ok')
     rec.count('streams_ok')
     rec.nt(canon.digest_bytes(b''.join(frames)))
     for pos, k in enumerate(case['kinds']):
